@@ -241,6 +241,9 @@ func runFlags(t *simrt.Tape, keep bool) simrt.Outcome {
 			for i := 0; i < n; i++ {
 				src := hosts[t.Choose(len(hosts))] + ":" + strconv.Itoa(80+t.Choose(3))
 				dst := hosts[t.Choose(len(hosts))] + ":" + strconv.Itoa(6060+t.Choose(3))
+				if t.Prob(1, 4) {
+					dst = src // the original address as one of the destinations of the rotation
+				}
 				args = append(args, "-connect-to="+src+":"+dst)
 				want[src] = append(want[src], dst)
 			}
